@@ -159,6 +159,10 @@ pub fn run(cfg: &RunCfg) -> Report {
             default_functions(&mut rep, Some(n));
             return rep;
         }
+        if r.get("list_element_form").is_some() {
+            list_element_forms(&mut rep);
+            return rep;
+        }
         if let (Some(m), Some(g)) = (r.get("recursion_module").and_then(|m| m.as_str()), r.get("graph_request").and_then(|m| m.as_str())) {
             let body = m.lines().filter(|l| !l.starts_with("Rec-Mod DEFINITIONS") && *l != "END").collect::<Vec<_>>().join("\n");
             judge_marking(&[RecGraph { label: "replay".into(), body, request: g.to_string() }], &mut rep);
@@ -178,7 +182,68 @@ pub fn run(cfg: &RunCfg) -> Report {
     judge_recursion(&recursion_modules(cfg), &mut rep);
     judge_marking(&recursion_graphs(cfg), &mut rep);
     default_functions(&mut rep, None);
+    list_element_forms(&mut rep);
     rep
+}
+
+/// SEQUENCE OF / SET OF whose element carries a name, a tag, a constraint, or several of these (X.680 26.1 / 28.1:
+/// `SEQUENCE OF NamedType`), at top level and as a component: one list per notation, with that element type.
+fn list_element_forms(rep: &mut Report) {
+    let elems: [(&str, &str); 10] = [
+        ("INTEGER", "Integer"),
+        ("item INTEGER", "Integer"),
+        ("[3] INTEGER", "Integer"),
+        ("item [3] INTEGER", "Integer"),
+        ("flag [APPLICATION 1] BOOLEAN", "bool"),
+        ("entry [0] EXPLICIT Elem", "Elem"),
+        ("entry Elem", "Elem"),
+        ("[PRIVATE 2] IMPLICIT Elem", "Elem"),
+        ("name UTF8String", "Utf8String"),
+        ("n [7] NULL", "()"),
+    ];
+    for (k, (elem, inner)) in elems.iter().enumerate() {
+        for (kw, wrapper) in [("SEQUENCE", "SequenceOf"), ("SET", "SetOf")] {
+            for size in ["", "(SIZE (1..4)) "] {
+                rep.evaluations += 1;
+                rep.count("list-element-form");
+                let text = format!("Le-Mod{k} DEFINITIONS EXPLICIT TAGS ::= BEGIN\nElem ::= SEQUENCE {{ a INTEGER }}\nTop ::= {kw} {size}OF {elem}\nHolder ::= SEQUENCE {{ first BOOLEAN, l {kw} {size}OF {elem}, last NULL }}\nEND\n");
+                let case = json!({"list_element_form": elem, "module": text});
+                match compile_rasn(&[text.clone()]) {
+                    Outcome::Ok { generated, .. } => match proj::project(&generated) {
+                        Ok(ms) => {
+                            let Some(m) = ms.first() else { continue };
+                            rep.distinct.insert(format!("list-element|{kw}|{size}|{elem}"));
+                            let want = format!("{wrapper}<");
+                            let top_ok = matches!(m.item("Top").map(|i| &i.kind), Some(proj::ItemKind::Struct { fields, tuple: true }) if fields.len() == 1 && fields[0].ty.replace(' ', "").starts_with(&want));
+                            let mut holder = match m.item("Holder").map(|i| &i.kind) {
+                                Some(proj::ItemKind::Struct { fields, tuple: false }) => fields.iter().map(|f| (f.name.clone(), f.ty.replace(' ', ""))).collect::<Vec<_>>(),
+                                _ => vec![],
+                            };
+                            // the list of the component is written in place, or hoisted into a newtype of its own (tagged elements)
+                            let list_ty = |ty: &str| -> String {
+                                if ty.starts_with(&want) { return ty.to_string(); }
+                                match m.item(ty).map(|i| &i.kind) { Some(proj::ItemKind::Struct { fields, tuple: true }) if fields.len() == 1 => fields[0].ty.replace(' ', ""), _ => String::new() }
+                            };
+                            if holder.len() == 3 {
+                                let t = list_ty(&holder[1].1);
+                                holder[1].1 = t;
+                            }
+                            let holder_ok = holder.len() == 3 && holder[0].0 == "first" && holder[2].0 == "last" && holder[1].0 == "l" && holder[1].1.starts_with(&want);
+                            // the element type: the written one, or an anonymous newtype of it (tags and constraints are hoisted)
+                            let elem_ok = |ty: &str| ty.contains(&format!("<{inner}>")) || ty.contains("<Anonymous");
+                            let top_ty = match m.item("Top").map(|i| &i.kind) { Some(proj::ItemKind::Struct { fields, .. }) if !fields.is_empty() => fields[0].ty.replace(' ', ""), _ => String::new() };
+                            if !top_ok || !holder_ok || !elem_ok(&top_ty) || !elem_ok(&holder.get(1).map(|x| x.1.clone()).unwrap_or_default()) {
+                                rep.unsat("", false, json!({"why": format!("`{kw} {size}OF {elem}`: expected a {wrapper} of {inner} at top level and as the middle one of three components; Top is `{top_ty}`, Holder is {:?}", holder), "case": case}));
+                            }
+                        }
+                        Err(e) => rep.harness_errors.push(format!("projection failed: {e}")),
+                    },
+                    Outcome::Err(e) => rep.unsat("", false, json!({"why": format!("`{kw} {size}OF {elem}` is valid notation (a named, tagged element), the compilation fails: {e}"), "case": case})),
+                    Outcome::Panic(p) => rep.unsat("", false, json!({"why": format!("panic: {p}"), "case": case})),
+                }
+            }
+        }
+    }
 }
 
 /// "DEFAULT components carry a default function": the function named by the field's `default` attribute exists,
@@ -262,7 +327,8 @@ fn recursion_graphs(cfg: &RunCfg) -> Vec<RecGraph> {
         let nt = 2 + rng.below(7);
         let mut names: Vec<String> = Vec::new();
         while names.len() < nt {
-            let c = format!("{}{}", ["N", "A", "Z", "M", "Q"][rng.below(5)], (b'a' + rng.below(8) as u8) as char);
+            // (names that begin like the Rust types the generator wraps members in are ordinary names)
+            let c = format!("{}{}", ["N", "A", "Z", "M", "Q", "Box", "Boxed", "Option", "Vec"][rng.below(9)], (b'a' + rng.below(8) as u8) as char);
             if !names.contains(&c) {
                 names.push(c);
             }
